@@ -1089,8 +1089,13 @@ impl<'a> Exec<'a> {
         if self.flags.term && sync && explicit_sync && !post.quiescent() {
             viol!("C09", step, "after sync() returned, {} read and {} write operations are still queued (maintenance running flag: {})", post.read_q, post.write_q, post.sync_running);
         }
-        if quiescent_point && self.window.len() > 1 {
-            self.all_windows_single = false;
+        if quiescent_point {
+            // only operations that put something into a queue matter for the order in
+            // which maintenance touches the entries
+            let queued = self.window.iter().filter(|w| matches!(w.prim, Prim::Insert { .. } | Prim::Get { .. } | Prim::Invalidate { .. } | Prim::Burst { .. } | Prim::BurstInvalidate { .. })).count();
+            if queued > 1 {
+                self.all_windows_single = false;
+            }
         }
         if self.reg.double_drop() && (self.flags.drops || self.flags.walk) {
             viol!(if self.flags.drops { "C11" } else { "C08" }, step, "a key or value object was dropped twice");
@@ -1348,6 +1353,19 @@ impl<'a> Exec<'a> {
             // purge completeness: expired entries are released once maintenance ran
             let small = self.q_prev.entries.len() < 90 && post.entries.len() < 90;
             let exact_order = !sync || self.all_windows_single;
+            // entries hidden by invalidate_all are released by the maintenance run that
+            // follows it (concurrent cache; exact when every operation was followed by sync)
+            if small && sync && exact_order && self.va.is_some() {
+                for e in &post.entries {
+                    if self.keys.get(&e.k).and_then(|m| m.latest_seq) == Some(e.seq) {
+                        if let (Some(cur), Some(va)) = (self.cur(e.k), self.va) {
+                            if cur.t_mod < va {
+                                viol!("C11", step, "entry k{} was invalidated by invalidate_all (inserted at {}, invalidate_all at {}) but maintenance did not release it", e.k, cur.t_mod, va);
+                            }
+                        }
+                    }
+                }
+            }
             if small && exact_order && (self.cfg.ttl.is_some() || self.cfg.tti.is_some()) {
                 let purge_ran_now = sync
                     || window.last().map_or(false, |w| {
